@@ -74,7 +74,7 @@ func getValues(script string, terms []string) []string {
 	for _, t := range terms {
 		b.WriteString("(get-value (" + t + "))\n")
 	}
-	out := runZ3(b.String(), 15)
+	out := runZ3(b.String(), 8)
 	lines := strings.SplitN(out, "\n", 2)
 	if len(lines) < 2 || strings.TrimSpace(lines[0]) != "sat" {
 		if os.Getenv("GVC_DEBUG") != "" {
@@ -225,8 +225,12 @@ func (ri *ReplayInfo) goLiterals(script string) ([]string, bool) {
 			k++
 		case isInterface(t):
 			n, ok := parseSMTInt(vals[k+4])
-			if !ok || !n.IsInt64() || n.Int64() > 4096 {
+			if !ok || !n.IsInt64() {
 				return nil, false
+			}
+			if n.Int64() > 4096 || n.Int64() < 0 {
+				// only relevant when the dynamic type is string; checked below
+				n.SetInt64(0)
 			}
 			lens[i] = int(n.Int64())
 			reqs = append(reqs, strReq{sx("vstr", term), int(n.Int64())})
@@ -252,7 +256,7 @@ func (ri *ReplayInfo) goLiterals(script string) ([]string, bool) {
 			return "", false
 		}
 		ln, ok := parseSMTInt(bytesVals[0])
-		if !ok || int(ln.Int64()) != n {
+		if !ok || (int(ln.Int64()) != n && n != 0) {
 			return "", false // model changed between queries
 		}
 		bs := make([]byte, n)
@@ -578,9 +582,6 @@ func (r *Report) tryGoReplay(g *Group, inputs map[string]string, base string, b 
 		}
 	}
 	if !ok {
-		lits, ok = flat.goLiterals(script)
-	}
-	if !ok {
 		// candidate model from the quantifier-free relaxation
 		lits, ok = flat.goLiterals(stripQuantified(script))
 		if ok {
@@ -628,7 +629,7 @@ func (r *Report) tryGoReplay(g *Group, inputs map[string]string, base string, b 
 	ov, _ := json.Marshal(map[string]any{"Replace": map[string]string{dst: gopath}})
 	ovPath := base + ".overlay.json"
 	os.WriteFile(ovPath, ov, 0o644)
-	cmd := exec.Command("go", "test", "-overlay", ovPath, "-vet=off", "-count=1", "-timeout", "60s", "-run", "^TestVerifReplay$", "./"+ri.PkgDir)
+	cmd := exec.Command("go", "test", "-tags=verif", "-overlay", ovPath, "-vet=off", "-count=1", "-timeout", "60s", "-run", "^TestVerifReplay$", "./"+ri.PkgDir)
 	cmd.Dir = r.repo
 	cmd.Env = append(os.Environ(), "GOFLAGS=-mod=mod", "GOPROXY=off", "GOSUMDB=off", "GOTOOLCHAIN=local")
 	out, err := cmd.CombinedOutput()
